@@ -360,7 +360,11 @@ def copy_elem(ti, v):
     try:
         return unflat(ti, flat(ti, v))
     except Exception:
+        pass
+    try:
         return type(v)(v)
+    except Exception:
+        return v        # e.g. V2i64 holding values its python constructor refuses: use the reference itself
 
 
 PY2TI = {}      # python class name -> ("array"|"scalar", TI)
@@ -1221,7 +1225,9 @@ class Exerciser:
                         # converting constructor: component-wise C++ conversion (float -> int truncates)
                         comps = flat(specs[0].ti, sargs[0])
                         if not tti.isfloat:
-                            comps = [wrap_int(tti.base, int(c)) if (c == c and not math.isinf(c)) else None for c in comps]
+                            lo_, hi_ = INT_RANGE[tti.base]
+                            # out-of-range float -> integer conversion is undefined behaviour in C++: not compared
+                            comps = [int(c) if (c == c and not math.isinf(c) and lo_ <= int(c) <= hi_) else None for c in comps]
                             if None in comps:
                                 continue
                         elif tti.base == "f32":
